@@ -270,4 +270,61 @@ theorem lex_frac (cls : Char → CClass) (d : Char) (ds : List Char) (sepc f : C
     rw [this]
     rfl
 
+/-! ### a number directly followed by a comma (`Month D, YYYY`) -/
+
+theorem splitDecimal_run_comma (cls : Char → CClass) (ds : List Char) (h : DRun cls ds) :
+    splitDecimal (ds ++ [',']) = [ds, [','], []] := by
+  induction ds with
+  | nil => simp [splitDecimal]
+  | cons a r ih =>
+    have ha := h a List.mem_cons_self
+    have hr : DRun cls r := fun c hc => h c (List.mem_cons_of_mem _ hc)
+    have hne : ¬ (a = '.' ∨ a = ',') := by
+      intro hh; rcases hh with hh | hh
+      · exact ha.2.2.1 hh
+      · exact ha.2.2.2 hh
+    simp only [List.cons_append, splitDecimal, hne, if_false, ih hr]
+
+/-- two or more digits, a comma, then something that is neither digit nor dot: the comma is first taken
+    into the number (state `'0.'`) and split off again when the token is emitted -/
+theorem lex_num_comma (cls : Char → CClass) (d : Char) (ds : List Char) (c : Char) (r : List Char)
+    (h : DRun cls (d :: ds)) (hl : (d :: ds).length ≥ 2) (hcomma : (cls ',').isNum = false)
+    (h0 : c ≠ '\x00') (hn : (cls c).isNum = false) (h1 : c ≠ '.') (hw : (cls c).isWord = false) :
+    scan cls .init ((d :: ds) ++ ',' :: c :: r) = (d :: ds) :: [','] :: scan cls .init (c :: r) := by
+  rw [scan_run_init cls d ds h.digRun]
+  have hne : ds ≠ [] := by intro hh; subst hh; simp at hl
+  have s1 : step cls { state := .n, tok := (d :: ds).reverse, seen := false } ',' =
+      ([], { state := .nDot, tok := ',' :: (d :: ds).reverse, seen := false }) := by
+    unfold step
+    simp [hcomma, hne]
+  have hemit : emit { state := .nDot, tok := ',' :: (d :: ds).reverse, seen := false } = [d :: ds, [',']] := by
+    unfold emit
+    have e : (',' :: (d :: ds).reverse).reverse = (d :: ds) ++ [','] := by simp
+    have hs := splitDecimal_run_comma cls (d :: ds) h
+    simp only [e, lstate_nDot_aDot, lstate_nDot_nDot, Bool.false_or, lastIsSep]
+    simp only [resplit, hs]
+    simp
+  have s2 : step cls { state := .nDot, tok := ',' :: (d :: ds).reverse, seen := false } c =
+      ((d :: ds) :: [','] :: (start cls c).1, (start cls c).2) := by
+    unfold step pushBack
+    simp only [h0, if_false, h1, hn, false_or, Bool.false_eq_true, hw, false_and, hemit]
+    rfl
+  rw [scan_init_cons cls c r h0]
+  simp only [scan, s1, s2, List.nil_append]
+  rfl
+
+/-- one digit and a comma: the comma ends the number at once -/
+theorem lex_num1_comma (cls : Char → CClass) (d : Char) (rest : List Char) (h : DRun cls [d])
+    (hcomma : cls ',' = .other) :
+    scan cls .init (d :: ',' :: rest) = [d] :: [','] :: scan cls .init rest := by
+  have hd := h d List.mem_cons_self
+  have e : d :: ',' :: rest = [d] ++ (',' :: rest) := rfl
+  rw [e, scan_run_init cls d [] h.digRun]
+  simp only [scan]
+  have : step cls { state := .n, tok := [d].reverse, seen := false } ',' = ([[d], [',']], .init) := by
+    unfold step pushBack start
+    simp [hcomma, CClass.isNum, CClass.isWord, CClass.isSpace, emit_n]
+  rw [this]
+  rfl
+
 end PM
